@@ -81,7 +81,14 @@ def swap(rnd, hazard):
         hz = "swap.diagonal_dep"
         rhs = B("+", A("m2", B("+", V("i"), I(d1)), B("+", V("j"), I(d2))),
                 R(1.0))
-    inner = ["do", "i", I(2), B("-", V("n"), I(1)), None,
+    hi_i = B("-", V("n"), I(1))
+    variant = rnd.random()
+    if variant < 0.3:
+        # inner bound depends on the outer loop variable only through an
+        # array subscript: interchange must be refused (or be correct)
+        hi_i = IC("max", I(1), IC("min", B("-", V("n"), I(1)),
+                                  IC("abs", A("ia", V("j")))))
+    inner = ["do", "i", I(2), hi_i, None,
              [["assign", A("m2", V("i"), V("j")), rhs]]]
     body = [["do", "j", I(2), B("-", V("n"), I(1)), None, [inner]]]
     return _unit(rnd, body), hz
@@ -125,6 +132,11 @@ def induction(rnd, hazard):
     lo, hi = (I(2), B("-", V("n"), I(1)))
     body_l = [["assign", V("t1"), B("+", V("i"), I(c))],
               ["assign", A("a", V("t1")), B("+", A("b", V("i")), R(1.0))]]
+    with_call = (not hazard) and rnd.random() < 0.35
+    if with_call:
+        # the would-be induction variable is passed to a routine that
+        # modifies it: it is not an induction variable any more
+        body_l.insert(1, ["call", "bump", [V("t1"), V("n")]])
     body = [["assign", V("t1"), I(0)],
             ["do", "i", lo, hi, None, body_l]]
     if hazard:
@@ -133,7 +145,18 @@ def induction(rnd, hazard):
     else:
         body.append(["assign", V("t1"), I(3)])
         body.append(["assign", V("s1"), V("t1")])
-    return _unit(rnd, body), hz
+    unit = _unit(rnd, body)
+    if with_call:
+        from vf.flite import decl
+        unit["routines"].append({
+            "kind": "subroutine", "name": "bump", "args": ["kk", "m"],
+            "decls": [decl("kk", "i", intent="inout"),
+                      decl("m", "i", intent="in")],
+            "body": [["if", [[C("<", V("kk"), B("-", V("m"), I(1))),
+                              [["assign", V("kk"), B("+", V("kk"), I(1))]]]],
+                      None]],
+            "result": None})
+    return unit, hz
 
 
 # ----------------------------------------------------------------- chunk
@@ -414,9 +437,20 @@ def dep(rnd, hazard):
             rs, _ = sub_kind()
             src = rnd.choice([w, r, r])
             return [["assign", A(w, ws), B("+", A(src, rs), R(1.0))]]
-        if x < 0.6:
+        if x < 0.52:
             return [["assign", V("r1"), A(r, V(iv))],
                     ["assign", A(w, V(iv)), B("*", V("r1"), R(2.0))]]
+        if x < 0.57:
+            # read in an EARLIER statement of the array written later
+            off = rnd.choice([1, -1])
+            return [["assign", V("r1"), A(w, B("+", V(iv), I(off)))],
+                    ["assign", A(w, V(iv)), B("*", V("r1"), R(2.0))]]
+        if x < 0.6:
+            # 2-D access: the loop-invariant first subscripts are equal
+            # under integer division, the second one carries the dependence
+            return [["assign", A("m2", B("/", B("+", B("*", I(2), V("d_i")),
+                                               I(1)), I(2)), V(iv)),
+                     B("+", A("m2", V("d_i"), B("-", V(iv), I(1))), R(1.0))]]
         if x < 0.75:
             return [["if", [[C(">", A(r, V(iv)), R(0.0)),
                              [["assign", V("r1"), A(r, V(iv))]]]], None],
